@@ -498,6 +498,74 @@ def translate_tables(repo, src):
     if cpa != ["%s.get()+N*i" % vrn, "%s.get()+N*(i+1)" % vrn, "&v[0]"]:
         raise TranslateError("LAPACK (dynamic): copy-back %r outside the grammar" % (cpa,))
     out.append("/-- vector i is copied from `vr[N*i .. N*(i+1))` -/\ndef lapNsD_copyBackStride : Bool := true\n")
+    # ---- orthoComp: the branch condition, the 2-vector whose length normalises u, and u in both branches ------------
+    oc = body_after(src, r"void\s+orthoComp\s*\([^)]*\)\s*\{", "orthoComp")
+    ohdr = one(r"void\s+orthoComp\s*\(\s*const\s+FieldVector\s*<\s*K\s*,\s*3\s*>\s*&\s*(\w+)\s*,\s*FieldVector\s*<\s*K\s*,\s*3\s*>\s*&\s*(\w+)\s*,\s*FieldVector\s*<\s*K\s*,\s*3\s*>\s*&\s*(\w+)\s*\)",
+               src, "orthoComp signature")
+    en, un, vn = ohdr
+    br = (r"\{\s*FieldVector\s*<\s*K\s*,\s*2\s*>\s+(\w+)\s*=\s*\{([^}]*)\}\s*;\s*auto\s+(\w+)\s*=\s*1(?:\.0*)?\s*/\s*(\w+)\s*\.\s*two_norm\(\)\s*;\s*"
+          r"%s\s*=\s*(\w+)\s*\*\s*FieldVector\s*<\s*K\s*,\s*3\s*>\s*\(\s*\{([^}]*)\}\s*\)\s*;\s*\}" % un)
+    om = one(r"if\s*\(\s*abs\s*\(\s*%s\[([0-2])\]\s*\)\s*>\s*abs\s*\(\s*%s\[([0-2])\]\s*\)\s*\)\s*%s\s*else\s*%s\s*%s\s*=\s*crossProduct\s*\(\s*(\w+)\s*,\s*(\w+)\s*\)\s*;"
+             % (en, en, br, br, vn), oc, "orthoComp body")
+    ci, cj = om[0], om[1]
+    bra, brb, tail = om[2:8], om[8:14], om[14:16]
+    if list(tail) != [en, un]:
+        raise TranslateError("orthoComp: v is not crossProduct(%s, %s)" % (en, un))
+    out.append("section\nvariable {K : Type} [Add K] [Sub K] [Mul K] [Div K] [Neg K] [NatCast K]\n")
+    out.append("/-- `if(abs(evec0[%s]) > abs(evec0[%s]))`: the components compared -/\ndef orthoComp_cond : Nat × Nat := (%s, %s)\n" % (ci, cj, ci, cj))
+    E3 = ["e0", "e1", "e2"]
+    for tag, b in (("A", bra), ("B", brb)):
+        tname, ttxt, lname, tn2, lname2, utxt = b
+        if tname != tn2 or lname != lname2:
+            raise TranslateError("orthoComp: branch %s does not normalise by the length of its own 2-vector" % tag)
+        tc = tr_list(re.sub(r"\b%s\s*\[" % en, "e[", ttxt).replace("e[0]", "e0").replace("e[1]", "e1").replace("e[2]", "e2"), E3)
+        uc = tr_list(re.sub(r"\b%s\s*\[" % en, "e[", utxt).replace("e[0]", "e0").replace("e[1]", "e1").replace("e[2]", "e2"), E3)
+        if len(tc) != 2 or len(uc) != 3:
+            raise TranslateError("orthoComp: branch %s has the wrong number of components" % tag)
+        out.append("/-- `temp = {%s};` (u is divided by its length) -/\ndef orthoComp_temp%s (e0 e1 e2 : K) : K × K :=\n  (%s, %s)\n" % (ttxt.strip(), tag, tc[0], tc[1]))
+        out.append("/-- `u = L * {%s};` -/\ndef orthoComp_u%s (e0 e1 e2 : K) : K × K × K :=\n  (%s, %s, %s)\n" % (utxt.strip(), tag, uc[0], uc[1], uc[2]))
+
+    # ---- eig1: the reduced 2x2 matrix and the four normalisation sequences with their result coefficients ----------
+    e1 = body_after(src, r"void\s+eig1\s*\([^)]*\)\s*\{", "eig1")
+    if not re.search(r"Vector\s+u\s*,\s*v\s*;\s*orthoComp\s*\(\s*evec0\s*,\s*u\s*,\s*v\s*\)\s*;\s*Vector\s+Au\s*,\s*Av\s*;\s*matrix\.mv\(\s*u\s*,\s*Au\s*\)\s*;\s*matrix\.mv\(\s*v\s*,\s*Av\s*\)\s*;", e1):
+        raise TranslateError("eig1: u, v, Au, Av not set up as expected")
+    mdefs = re.findall(r"auto\s+(m00|m01|m11)\s*=\s*([^;]+);", e1)
+    if [m[0] for m in mdefs] != ["m00", "m01", "m11"]:
+        raise TranslateError("eig1: reduced matrix entries changed")
+    dots = {"u.dot(Au)": "uAu", "u.dot(Av)": "uAv", "v.dot(Av)": "vAv", "v.dot(Au)": "vAu"}
+    for nm, ex in mdefs:
+        e = norm_ws(ex)
+        for k, v in dots.items():
+            e = e.replace(k, v)
+        out.append("/-- `auto %s = %s;` -/\ndef eig1_%s (uAu uAv vAv eval1 : K) : K :=\n  %s\n" % (nm, ex.strip(), nm, tr(e, ["uAu", "uAv", "vAv", "eval1"])))
+    if not re.search(r"auto\s+absM00\s*=\s*abs\(m00\)\s*;\s*auto\s+absM01\s*=\s*abs\(m01\)\s*;\s*auto\s+absM11\s*=\s*abs\(m11\)\s*;", e1):
+        raise TranslateError("eig1: absolute values changed")
+    seq = r"\{\s*((?:m(?:00|01|11)\s*[*/]?=\s*[^;]+;\s*){3})\}"
+    half = (r"\{\s*auto\s+maxAbsComp\s*=\s*max\s*\(\s*absM(00|11)\s*,\s*absM01\s*\)\s*;\s*if\s*\(\s*maxAbsComp\s*>\s*0(?:\.0*)?\s*\)\s*\{\s*"
+            r"if\s*\(\s*absM(00|11)\s*>=\s*absM01\s*\)\s*" + seq + r"\s*else\s*" + seq + r"\s*evec1\s*=\s*(m\d\d)\s*\*\s*u\s*-\s*(m\d\d)\s*\*\s*v\s*;\s*\}\s*else\s+evec1\s*=\s*u\s*;\s*\}")
+    em = one(r"if\s*\(\s*absM00\s*>=\s*absM11\s*\)\s*" + half + r"\s*else\s*" + half, e1, "eig1 branch structure")
+    h1, h2 = em[:6], em[6:]
+    if (h1[0], h1[1]) != ("00", "00") or (h2[0], h2[1]) != ("11", "11"):
+        raise TranslateError("eig1: the branches do not compare their own diagonal entry")
+
+    def chain(stmts, res):
+        lets = []
+        for st in [x.strip() for x in stmts.split(";") if x.strip()]:
+            m = re.match(r"^(m00|m01|m11)\s*([*/]?)=\s*(.+)$", st)
+            if not m:
+                raise TranslateError("eig1: statement %r outside the grammar" % st)
+            rhs = tr(m.group(3), ["m00", "m01", "m11", "sqrt"])
+            if m.group(2):
+                rhs = "(%s %s %s)" % (m.group(1), m.group(2), rhs)
+            lets.append("let %s : K := %s" % (m.group(1), rhs))
+        return "\n  ".join(lets) + "\n  (%s, %s)" % res
+    for tag, h in (("0", h1), ("1", h2)):
+        for sub_, stm in (("a", h[2]), ("b", h[3])):
+            out.append("/-- eig1, outer branch %s, inner branch %s: `%s evec1 = %s*u - %s*v` as (coefficient of u, coefficient of v) -/\n"
+                       "def eig1_leaf%s%s (sqrt : K → K) (m00 m01 m11 : K) : K × K :=\n  %s\n"
+                       % (tag, sub_, " ".join(stm.split()), h[4], h[5], tag, sub_, chain(stm, (h[4], h[5]))))
+    out.append("end\n")
+
     # ---- the four public symmetric entry points: which job they run ------------------------------------------------
     ej = []
     for fn, impl in (("eigenValues", "eigenValuesVectorsImpl"), ("eigenValuesVectors", "eigenValuesVectorsImpl"),
